@@ -37,6 +37,9 @@ var constOnly = map[string][]int{
 	"lookup": {1, 2}, "haskey": {1, 2},
 }
 
+// ConstPositions: the argument positions of fn that must be literals.
+func ConstPositions(fn string) []int { return constOnly[fn] }
+
 // Arity is the documented arity range of every helper of the property
 // (max -1: variadic). Taken from the "Syntax:" lines of DOC.
 var Arity = map[string][2]int{
